@@ -149,6 +149,18 @@ def audit_axioms(prop_id, module, theorems):
     return ok, res, out
 
 
+def lean_imports_outside_core():
+    res = set()
+    for root, _, files in os.walk(os.path.join(LEAN, "Scc")):
+        for f in files:
+            if f.endswith(".lean"):
+                for l in open(os.path.join(root, f), errors="replace"):
+                    m = re.match(r"^import\s+(\S+)", l)
+                    if m and m.group(1).split(".")[0] not in ("Scc", "Std", "Init", "Lean"):
+                        res.add("%s: %s" % (os.path.relpath(os.path.join(root, f), LEAN), m.group(1)))
+    return sorted(res)
+
+
 def grep_forbidden(files):
     hits = []
     for f in files:
@@ -405,6 +417,12 @@ class Check:
             "known_findings_hit": [k for k, _ in self.known_hits],
         }
         cov.update(self.notes)
+        # informational (no verdict): imports of the Lean project that are not core/Std/own modules, so the
+        # "core + Std only" line of the trusted base is measured on every run rather than asserted
+        try:
+            cov["lean_imports_outside_core"] = lean_imports_outside_core()
+        except Exception as e:  # never let a note break a check
+            cov["lean_imports_outside_core"] = ["(scan failed: %s)" % e]
         ev = {
             "property_id": self.id,
             "tier": self.tier if self.tier in ("quick", "thorough") else "quick",
